@@ -142,6 +142,18 @@ def zsets_cases():
                             [b'zrangebyscore', b'z', lo, hi, b'limit', b'0', b'-1'], [b'zrangebyscore', b'z', lo, hi, b'limit', b'0', b'0'],
                             [b'zrevrangebyscore', b'z', hi, lo, b'limit', b'1', b'0'], [b'zrangebyscore', b'z', lo, hi, b'withscores', b'limit', b'2', b'1']]
                 yield mk + [[b'zremrangebyscore', b'z', lo, hi], [b'zrange', b'z', b'0', b'-1']]
+    # the empty string is a member like any other: it is the smallest member of its score, so every bound sentinel is tested against it
+    mk = [[b'zadd', b'z', b'2', b'', b'2', b'b', b'1', b'a', b'3', b'c']]
+    bounds = [b'-inf', b'+inf', b'1', b'(1', b'2', b'(2', b'3', b'(3']
+    for lo in bounds:
+        for hi in bounds:
+            yield Always(mk + [[b'zrangebyscore', b'z', lo, hi], [b'zcount', b'z', lo, hi], [b'zrevrangebyscore', b'z', hi, lo, b'withscores'],
+                               [b'zrank', b'z', b''], [b'zscore', b'z', b''], [b'zremrangebyscore', b'z', lo, hi], [b'zrange', b'z', b'0', b'-1', b'withscores']])
+    mk = [[b'zadd', b'z', b'0', b'', b'0', b'a', b'0', b'b']]
+    for lo in (b'-', b'+', b'[', b'(', b'[a', b'(a'):
+        for hi in (b'-', b'+', b'[', b'(', b'[a', b'(a', b'[b'):
+            yield Always(mk + [[b'zrangebylex', b'z', lo, hi], [b'zlexcount', b'z', lo, hi], [b'zrevrangebylex', b'z', hi, lo], [b'zremrangebylex', b'z', lo, hi],
+                               [b'zrange', b'z', b'0', b'-1']])
     # aggregation: weights x aggregates x infinite scores
     ws = [b'0', b'1', b'-1', b'inf', b'-inf', b'2.5']
     for agg in ([], [b'aggregate', b'sum'], [b'aggregate', b'min'], [b'aggregate', b'MAX']):
@@ -214,6 +226,16 @@ def ttl_cases():
             if not any(f[0] in (b'multi', b'exec') for f in a if isinstance(f, list)):
                 # one clock reading for the whole block
                 yield pre + [[b'multi']] + a + after + [[b'setnx', b'k', b'again'], [b'dbsize'], [b'exec']] + after
+    # one clock reading (inside EXEC) for whole-keyspace views of two databases that trade places: a database nobody has looked at since the
+    # deadline passed must still be swept when it is reached through SWAPDB / SELECT / MOVE
+    whole = [[b'dbsize'], [b'keys', b'*'], [b'scan', b'0', b'count', b'100'], [b'randomkey']]
+    setup = [[b'set', b'zero', b'x'], [b'select', b'1'], [b'set', b'alive', b'x'], [b'set', b'dead', b'x', b'px', b'100'], [b'select', b'0'], ('adv', 1000)]
+    travels = ([[b'swapdb', b'0', b'1']], [[b'select', b'1']], [[b'select', b'1'], [b'move', b'dead', b'0'], [b'select', b'0']],
+               [[b'select', b'1'], [b'swapdb', b'1', b'0'], [b'select', b'0']], [[b'swapdb', b'0', b'1'], [b'swapdb', b'0', b'1'], [b'select', b'1']])
+    for first in whole:
+        for travel in travels:
+            yield Always(setup + [[b'multi'], first] + travel + whole + [[b'exists', b'dead'], [b'exists', b'alive'], [b'exec']])
+            yield Always(setup + [first] + travel + whole + [[b'exists', b'dead']])
 
 
 def missing_cases(rng, n):
@@ -356,8 +378,14 @@ def lifecycle_cases(sizes=(2, 3)):
                     case.append(('open', c))
                     for f in LIFE_ROLES[r]:
                         case.append(('cmd', c, list(f)))
+                # every third case closes / collects the connections while the server is marked disconnected (they must be forgotten all the same)
+                outage = (len(out) % 3 == 1)
+                if outage:
+                    case.append(('conn', 0))
                 for i, k in enumerate(kinds):
                     case.append((k, 2 + i))
+                if outage:
+                    case.append(('conn', 1))
                 case += [[b'publish', b'ch1', b'm1'], [b'set', b'k1', b'v'], [b'publish', b'ch1', b'm2'], [b'publish', b'ch2', b'm3'],
                          ('cmd', 8, [b'exec']), ('close', 9), [b'publish', b'ch1', b'm4']]
                 out.append(case)
